@@ -269,7 +269,7 @@ def language_equality(tier, seed, chunk=0):
     seen = set()
     hand = [r'[a-c-[b]]+', r'[^\D5]', r'[^\S ]', r'[\P{Lu}-[a]]', r'[a-z+-9]', r'[A-F.-9]', r'[0-3*-.]', r'\w', r'\W', r'[\w-[_]]', r'\i\c*', r'[\i-[:]][\c-[:]]*',
             r'\p{IsBasicLatin}+', r'\P{IsGreek}', r'(a|b)*c{2,3}', r'a{0}b', r'.', r'[.]', r'\.', r'[\^]', r'[a\-z]', r'\-', r'\s+', r'[\s-[ ]]', r'[^a-c]', r'[^\d\s]', r'x*',
-            r'(a?)*', r'(|a)b', r'[\p{L}-[\p{Lu}]]', r'[\p{Nd}-[0-4]]', r'\$\^', r'[$^]', r'[+--]', r'[--/]']
+            r'(a?)*', r'(|a)b', r'[\p{L}-[\p{Lu}]]', r'[\p{Nd}-[0-4]]', r'[^\-\Dd-y]', r'[\-\d5]', r'[\.\s\-\w]', r'[^,b-g-[\-\Wb-f]]', r'\$\^', r'[$^]', r'[+--]', r'[--/]']
     hand = hand[chunk::NCHUNKS]
     trees = [('raw', h) for h in hand]
     while len(trees) < count + len(hand):
